@@ -196,6 +196,9 @@ func c14Body(e *Env) {
 	if e.Failed() {
 		return false
 	}
+	if after := txfile.VerifAllocSnapshot(r.F); after.DataEnd < snap.DataEnd || after.MetaEnd < snap.MetaEnd {
+		e.Probe("release_regions_tx") // the open released free regions beyond the new limit
+	}
 
 	// --- crash images inside the size-changing open
 	if logEnd > logStart {
